@@ -260,7 +260,11 @@ type TaskMaster struct {
 	tasks map[string]*ExecutingTask
 
 	// DeleteHooks for tasks
-	deleteHooks map[string][]deleteHook
+	// deleteHooksMu guards deleteHooks. It is separate from mu because nodes register
+	// their hooks from their own goroutine, possibly while the task is already being
+	// stopped by a caller that holds mu and waits for that goroutine.
+	deleteHooksMu sync.Mutex
+	deleteHooks   map[string][]deleteHook
 
 	diag Diagnostic
 
@@ -627,15 +631,17 @@ func (tm *TaskMaster) stopTask(id string) (err error) {
 // internal deleteTask function. The caller must have acquired
 // the lock in order to call this function
 func (tm *TaskMaster) deleteTask(id string) {
+	tm.deleteHooksMu.Lock()
 	hooks := tm.deleteHooks[id]
+	tm.deleteHooksMu.Unlock()
 	for _, deleteHook := range hooks {
 		deleteHook(tm)
 	}
 }
 
 func (tm *TaskMaster) registerDeleteHookForTask(id string, hook deleteHook) {
-	tm.mu.Lock()
-	defer tm.mu.Unlock()
+	tm.deleteHooksMu.Lock()
+	defer tm.deleteHooksMu.Unlock()
 	tm.deleteHooks[id] = append(tm.deleteHooks[id], hook)
 }
 
